@@ -65,7 +65,13 @@ def main():
         for p, e in errors.items():
             print("      %s !! %s" % (p, e))
         summary[name] = {"property": own, "fired": fired, "errors": errors, "verdict": verdict}
-    with open(os.path.join(ROOT, "seeded", "RESULTS.json"), "w") as fh:
+    rp = os.path.join(ROOT, "seeded", "RESULTS.json")
+    if sys.argv[1:] and os.path.exists(rp):
+        # a named subset updates its rows and keeps the others
+        merged = json.load(open(rp))
+        merged.update(summary)
+        summary = merged
+    with open(rp, "w") as fh:
         json.dump(summary, fh, indent=1)
         fh.write("\n")
     return 0
